@@ -493,6 +493,12 @@ func newSchemaType(spec *specification.Schema, components Componenter, cfg Confi
 					Embedded:           true,
 					RenderToBaseTypeFn: schema.RenderToBaseType,
 				})
+			} else if st, ok := schema.Type.(StructureType); ok {
+				// the member is already built (with its helper types registered once)
+				s.Fields = append(s.Fields, st.Fields...)
+				if st.AdditionalProperties != nil {
+					s.AdditionalProperties = st.AdditionalProperties
+				}
 			} else if schema.Kind() == SchemaKindObject {
 				st, ims, err := NewStructureType(a.Value(), components, cfg)
 				if err != nil {
